@@ -209,6 +209,7 @@ func genNext(g *hx.Gen, n int) {
 			g.Stat("next.maxJitter=2^k")
 		}
 		g.Emit("next rb=%d nb=%s na=%s now=%s src=%s", rb, nb, na, now, hx.JoinStrs(src))
+		g.Stat("op.next")
 	}
 }
 
@@ -982,6 +983,7 @@ func genWorldAndCalls(g *hx.Gen, mode string) {
 	r := g.R
 	var sb strings.Builder
 	sb.WriteString(mode)
+	g.Stat("op." + mode)
 	// clock: usually 2030; sometimes around the Let's Encrypt revocation cut-off
 	now := int64(1893456000 + r.Intn(1000000))
 	if r.Chance(1, 6) {
@@ -1157,8 +1159,8 @@ func genWorldAndCalls(g *hx.Gen, mode string) {
 }
 
 func gen(g *hx.Gen) {
-	genNext(g, g.Count(10000, 1500000))
-	ngc := g.Count(320, 30000)
+	genNext(g, g.Count(10000, 1000000))
+	ngc := g.Count(320, 20000)
 	for i := 0; i < ngc; i++ {
 		switch i % 4 {
 		case 0, 1:
